@@ -174,6 +174,16 @@ func scenarios(tier string) (two, three []*engine.Scenario) {
 	return
 }
 
+// RaceScenarios: listen/close programs in which a listen can land between a last close and the
+// manager's clean-up (a shared listener is then acquired again): used by C19 with the race monitor.
+func RaceScenarios() []*engine.Scenario {
+	var out []*engine.Scenario
+	for _, ps := range [][]program{{"pc", "pc"}, {"pc", "pcpc"}, {"sc", "sc"}, {"sc", "scsc"}, {"spc c", "pc"}} {
+		out = append(out, scenario(ps))
+	}
+	return out
+}
+
 func init() {
 	hk.Register("C13", func(ctx *engine.Ctx) {
 		two, three := scenarios(ctx.Tier)
